@@ -249,6 +249,35 @@ func TestC06(t *testing.T) {
 		rec.Bulk(n, n, map[string]int64{"small-universe:models": n, "small-universe:ordered-builds": orders})
 		rec.Note("small universe: %d of %d models (stride %d) under all DFS start orders (%d ordered builds)", n, total, stride, orders)
 	}
+	// the name-pair / chain / ring family of the weighted-graph checks: one verdict and one dump per model over 8 real
+	// builds and the sorted, reversed and rotated start orders
+	if ev.Shard() == 0 {
+		var n int64
+		for i, m := range wgNamePairModels() {
+			in := wgInput{Model: m}
+			if g0 := ref.Build(m); g0.Err == "" {
+				ids := wgNonTerminal(g0)
+				rev := append([]string{}, ids...)
+				for a, b := 0, len(rev)-1; a < b; a, b = a+1, b-1 {
+					rev[a], rev[b] = rev[b], rev[a]
+				}
+				in.Orders = [][]string{ids, rev}
+				if len(ids) <= 4 {
+					in.Orders = permutations(ids, 100)
+				}
+			}
+			res := wgEvaluate(in, wgOpts{RealBuilds: 8})
+			n++
+			for _, f := range res.Findings {
+				if f.Aspect == "determinism" || f.Aspect == "panic" {
+					cin := c06Input{Model: m, Orders: in.Orders, Text: m.String()}
+					rec.Violation(cin, f.What)
+					t.Fatalf("name-pair / chain / ring family model #%d: %s", i, f.What)
+				}
+			}
+		}
+		rec.Bulk(n, n, map[string]int64{"name-pair-family:models": n})
+	}
 	// second bounded part: operators of ONE kind nested three levels deep. Every way of bracketing four operands of a
 	// union / an intersection (the five binary tree shapes), and for each shape every way of swapping the two operands
 	// of its three operators: within one shape all eight variants are reorderings of operands, so every relation keeps
